@@ -369,6 +369,9 @@ pub fn check_updates(d: &Dag, depth: usize, acc: &mut Acc) {
         let inits = if n <= 4 { vec![vec![None; n], ramp] } else { vec![ramp] };
         for init in inits {
             let m = UpdModel { d, base: &base, init, desc: desc.clone(), enc: ename };
+            // near-tree keeps no range structure (roll-ups fold the descendant set from the measure
+            // vector), so on 5-node DAGs its update histories stop at depth 1
+            let depth = if n >= 5 && *enc == Some(Encoding::NearTree) { 1 } else { depth };
             let stats = hx::explore(&m, depth, 10_000_000, |v| {
                 let (msg, w) = v.msg.split_once(" ## ").map(|(a, b)| (a.to_string(), serde_json::from_str(b).unwrap_or(Value::Null))).unwrap_or((v.msg.clone(), Value::Null));
                 acc.hit(v.sig, || msg, || w);
@@ -413,7 +416,7 @@ pub fn run(ctx: &Ctx) {
     ctx.cov("index_evaluations", all.evals);
     ctx.cov("index_builds_by_requested_to_selected_encoding", json!(all.enc_counts));
     ctx.cov("index_declined_by_probe", all.refused);
-    ctx.cov("update_hx", json!({"states": all.states, "transitions": all.transitions, "alphabet": "update_measure(node, absent|1|2|-1)", "depth": "3 for <=4 nodes, 2 for 5 nodes", "initial_measures": "all absent and ramp [1,2,-1,absent,..] for <=4 nodes; ramp only for 5 nodes", "dedup_key": "measure vector"}));
+    ctx.cov("update_hx", json!({"states": all.states, "transitions": all.transitions, "alphabet": "update_measure(node, absent|1|2|-1)", "depth": "3 for <=4 nodes; 5 nodes: 2 (nested-set, chain), 1 (near-tree)", "initial_measures": "all absent and ramp [1,2,-1,absent,..] for <=4 nodes; ramp only for 5 nodes", "dedup_key": "measure vector"}));
     ctx.cov_add("evaluations", all.evals);
     ctx.cov_add("distinct_nontrivial", all.nontrivial);
     ctx.cov_add("states", all.states);
